@@ -303,7 +303,9 @@ func c01Probes() []c01Probe {
 		{name: "shell-parens", n0: 50, gen: func(n int) string { return "do-install:\n\t" + rep("(", n) + "echo" + rep(")", n) + "\n" }},
 		{name: "shell-parens-open", n0: 200, gen: func(n int) string { return "do-install:\n\t" + rep("( ", n) + "\n" }},
 		{name: "shell-braces", n0: 50, gen: func(n int) string { return "do-install:\n\t" + rep("{ ", n) + "echo; " + rep("}; ", n) + "\n" }},
-		{name: "shell-if", n0: 50, gen: func(n int) string { return "do-install:\n\t" + rep("if true; then ", n) + ":; " + rep("fi; ", n) + "\n" }},
+		{name: "shell-if", n0: 50, gen: func(n int) string {
+			return "do-install:\n\t" + rep("if true; then ", n) + ":; " + rep("fi; ", n) + "\n"
+		}},
 		{name: "shell-backticks", n0: 200, gen: func(n int) string { return "do-install:\n\techo " + rep("`echo` ", n) + "\n" }},
 		{name: "shell-quotes", n0: 500, gen: func(n int) string { return "do-install:\n\techo " + rep("\"a\"'b'", n) + "\n" }},
 		{name: "shell-pipes", n0: 500, gen: func(n int) string { return "do-install:\n\ta" + rep(" | a", n) + "\n" }},
